@@ -7,15 +7,25 @@ and every stated sequent is no stronger than the computed one.
 -/
 namespace Holpy.C02
 
-/-- One trace event is well-formed: it is a gap event iff the rule is the gap rule; a gap event
-needs `no_gaps = False`; otherwise the computed sequent proves the stored one. -/
+/-- One trace event is well-formed: an event of the gap rule has nothing computed and needs
+`no_gaps = False`; a computed sequent proves the stored one; nothing computed means a placeholder
+or, only under `compute_only`, a statement taken on trust. -/
 def EvOK (cfg : Cfg) (e : Ev) : Prop :=
-  (e.computed = none ↔ e.rule = gapRule) ∧
+  (e.rule = gapRule → e.computed = none ∧ cfg.noGaps = false) ∧
   (∀ r, e.computed = some r → canProve r e.th = true) ∧
-  (e.computed = none → cfg.noGaps = false)
+  (e.computed = none → e.rule = gapRule ∨ cfg.computeOnly = true)
 
 /-- The statements of the placeholders met, in check order. -/
-def gapsOf (trace : List Ev) : List Seq := (trace.filter (fun e => e.computed.isNone)).map (·.th)
+def gapsOf (trace : List Ev) : List Seq := (trace.filter (fun e => e.rule == gapRule)).map (·.th)
+
+/-- The event of a statement taken on trust. -/
+theorem TrOK_trusted_ev (cfg : Cfg) (hco : cfg.computeOnly = true) (pos : List Nat) (rule : String)
+    (hr : rule ≠ gapRule) (t : Seq) :
+    (∀ e ∈ [(⟨pos, rule, none, t⟩ : Ev)], EvOK cfg e) ∧ ([] : List Seq) = gapsOf [(⟨pos, rule, none, t⟩ : Ev)] := by
+  refine ⟨?_, by simp [gapsOf, hr]⟩
+  intro e he
+  simp at he; subst he
+  exact ⟨fun h => absurd h hr, by simp, fun _ => Or.inr hco⟩
 
 theorem gapsOf_append (a b : List Ev) : gapsOf (a ++ b) = gapsOf a ++ gapsOf b := by
   simp [gapsOf]
@@ -42,10 +52,10 @@ theorem finish_trok {R : Rules} {cfg : Cfg} {root : List Item} {pos : List Nat} 
       TrOK cfg gaps (trace ++ [⟨pos, seq.rule, some r, t⟩]) := by
     intro r t hc
     have : TrOK cfg [] [(⟨pos, seq.rule, some r, t⟩ : Ev)] := by
-      refine ⟨?_, by simp [gapsOf]⟩
+      refine ⟨?_, by simp [gapsOf, hrule]⟩
       intro e he
       simp at he; subst he
-      refine ⟨⟨by simp, fun h => absurd h hrule⟩, ?_, by simp⟩
+      refine ⟨fun h => absurd h hrule, ?_, by simp⟩
       intro r' hr'; simp at hr'; subst hr'; exact hc
     simpa using ht.append this
   unfold finish at h
@@ -113,18 +123,31 @@ theorem checkItem_trok {R : Rules} {cfg : Cfg} :
             · rename_i hng
               simp only [Except.ok.injEq] at h
               subst h
-              refine ⟨?_, by simp [gapsOf]⟩
+              refine ⟨?_, by simp [gapsOf, hgap]⟩
               intro e he
               simp at he; subst he
-              exact ⟨⟨fun _ => hgap, fun _ => rfl⟩, by simp, fun _ => by simpa using hng⟩
+              exact ⟨fun _ => ⟨rfl, by simpa using hng⟩, by simp, fun _ => Or.inl hgap⟩
         · rename_i hngap
           split at h
           · -- compute_only with a statement
+            rename_i hco
+            have hco : cfg.computeOnly = true := by
+              simp only [Bool.and_eq_true] at hco; exact hco.1
             split at h
-            · split at h
-              · simp at h
-              · exact checkList_trok _ _ (fun root pos seq out => ih root pos seq out) _ _ _ _ h
             · simp only [Except.ok.injEq] at h; subst h; exact TrOK.nil cfg
+            · rename_i t _
+              split at h
+              · split at h
+                · simp at h
+                · split at h
+                  · simp at h
+                  · rename_i o ho
+                    simp only [Except.ok.injEq] at h; subst h
+                    have h1 := checkList_trok _ _ (fun root pos seq out => ih root pos seq out) _ _ _ _ ho
+                    have h2 := TrOK_trusted_ev cfg hco pos seq.rule hngap t
+                    simpa using TrOK.append h1 h2
+              · simp only [Except.ok.injEq] at h; subst h
+                exact TrOK_trusted_ev cfg hco pos seq.rule hngap t
           · split at h
             · split at h
               · simp at h
